@@ -4,7 +4,7 @@
 # the patch and PASSES without it.  (Scratch worktree only; never /repo.)
 wt=$1; sd=$2; out=$3
 cd "$wt" || exit 2
-git checkout -q -- . ; rm -rf tests/seeded_demo.rs
+git reset -q --hard HEAD ; rm -rf tests/seeded_demo.rs
 feat=$(python3 -c "import json,re,sys; m=json.load(open('$sd/meta.json')).get('demo_cmd',''); r=re.search(r'--features[ =]+(\"[^\"]+\"|\S+)',m); print(r.group(1).strip('\"') if r else '')")
 fa=""; [ -n "$feat" ] && fa="--features $feat"
 grep -q -- "--release" "$sd/meta.json" && fa="$fa --release"
